@@ -248,7 +248,14 @@ func (c *kCtx) transitions(k *kSys, a kAction, before []string, report bool, his
 				return false
 			}
 		}
-		if ob == "plotting" && (na == "ready" || na == "mining") && k.stopped[i] && k.stopProgress[i] >= 100 {
+		if ob == "plotting" && na == "mining" && k.stopped[i] {
+			// whatever the plot did: a stop while plotting withdraws the wish to mine
+			if report {
+				c.viol("stopped-space-mined", "stop-while-plotting", fmt.Sprintf("workspace %s was stopped while plotting and not asked to mine again, but went plotting->mining", kNames[i]), hist, op)
+			}
+			k.stopped[i] = false
+		}
+		if ob == "plotting" && na == "ready" && k.stopped[i] && k.stopProgress[i] >= 100 {
 			// the plot had already finished when the stop came in (the keeper had not yet run step 3): nothing was
 			// plotted after the stop, the space is complete and ready is where a complete space belongs
 			k.stopped[i] = false
